@@ -178,19 +178,6 @@ def discharge(axioms, o, want_model=True, split_first=False):
     """returns (verdict, backend, seconds, model|None, reason)"""
     t0 = time.time()
     if split_first and _split_attempt(axioms, o): return 'discharged', 'z3', time.time() - t0, None, ''
-    # the plain query first, short (without the ground membership instances): 'unsat' is a proof (fewer hypotheses); 'sat' is a genuine
-    # counter-model only when no membership predicate occurs (their converse axiom 'an element is a member' exists only as ground instances)
-    try:
-        s_ = z3.Solver(); s_.set('timeout', min(5000, Z3_TIMEOUT_MS))
-        for a in axioms: s_.add(a)
-        for p in o.pc: s_.add(p)
-        s_.add(z3.Not(o.goal))
-        r_ = s_.check()
-        if r_ == z3.unsat: return 'discharged', 'z3', time.time() - t0, None, ''
-        if r_ == z3.sat and not mem_instances(list(axioms) + list(o.pc) + [z3.Not(o.goal)]):
-            return 'refuted', 'z3', time.time() - t0, s_.model(), ''
-    except z3.Z3Exception:
-        pass
     s = z3.Solver(); s.set('timeout', Z3_TIMEOUT_MS)
     for a in axioms: s.add(a)
     for p in o.pc: s.add(p)
